@@ -314,6 +314,9 @@ def _mk_tile_compressor(
 
     tile_shape = meta.chunks
     encoder = TIFF.COMPRESSORS[meta.compression]
+    if meta.compression == 1:
+        # COMPRESSION.NONE: identity "codec" hands back ndarray, we need bytes
+        encoder = None
 
     predictor = None
     if meta.predictor != 1:
